@@ -1,8 +1,9 @@
 package lint
 
 import (
-	"go/token"
 	"fmt"
+	"go/token"
+	"go/types"
 	"strings"
 
 	"golang.org/x/tools/go/ssa"
@@ -22,7 +23,7 @@ func init() {
 			"R09.2 hand-out arm: the getter channel is enabled only when Peek returned a ready key; handing out adds the key to on-hold, pops it and decrements the length; R09.3 put arm: a key that is on hold is parked (latest value wins, counted once), otherwise pushed with now/overwrite; " +
 			"R09.4 release arm: on-hold removal first; a requeue pushes with the item's time and without overwriting; a parked value is re-pushed with now/overwrite and removed from the parked map; R09.5 Release is Requeue(zero) and Requeue sends at most once per item (released flag set before the send, send only when not yet released, done arm present); the worker defers Release and requeues only for a non-zero interval; " +
 			"R09.6 backoff table: error ∧ no explicit interval → per-key backoff; success or skip → backoff cleared; R09.7 length accounting pairs +1 with Push()==true / first parking and −1 with Pop / re-push onto an existing entry; R09.8 Peek is ready iff ReleaseAfter − now ≤ 0; Push updates the value (when asked to) before it may return early, keeps the earlier time, and reports 'new' iff the key was absent.",
-		NotCovered: "per-item exclusion, coalescing, no-loss and honoured backoff over all interleavings of Put/Get/Release/Requeue/clock (behavioural over schedules and time).",
+		NotCovered:  "per-item exclusion, coalescing, no-loss and honoured backoff over all interleavings of Put/Get/Release/Requeue/clock (behavioural over schedules and time).",
 		Assumptions: []string{"select arms of one goroutine execute atomically with respect to that goroutine's locals"},
 		Run:         runC09,
 	})
@@ -40,23 +41,94 @@ func runC09(c *Ctx) {
 		nGo := len(Find(run, func(in ssa.Instruction) bool { _, ok := in.(*ssa.Go); return ok }))
 		c.Check(nGo == 0 && len(run.AnonFuncs) == 0, "R09.1", FuncName(run)+" :: no go statement and no closure", fpos(run), "confined", fmt.Sprintf("%d go statements, %d closures: queue state can be touched concurrently", nGo, len(run.AnonFuncs)))
 
-		locals := 0
+		// the containers Run works on (priority queue, on-hold set, parked-value map) are created in Run —
+		// as locals or as fields of a struct created there — and their addresses never leave it
+		roots := map[*ssa.Alloc]bool{}
+		okRoots := true
 
-		for _, in := range Find(run, func(in ssa.Instruction) bool { _, ok := in.(*ssa.Alloc); return ok }) {
-			al := in.(*ssa.Alloc)
-			if al.Comment == "pqueue" || al.Comment == "onHold" || al.Comment == "timer" {
-				locals++
-				// the address is only used as a method receiver / field base, never stored or sent
-				for _, r := range *al.Referrers() {
-					switch r.(type) {
-					case *ssa.Store, *ssa.Send, *ssa.MakeClosure:
-						c.Bad("R09.1", FuncName(run)+" :: "+al.Comment+" does not escape", r.Pos(), "the container's address escapes the event loop")
+		rootOf := func(v ssa.Value) ssa.Value {
+			for range 8 {
+				v = Fwd(v)
+
+				switch x := v.(type) {
+				case *ssa.FieldAddr:
+					v = x.X
+				case *ssa.UnOp:
+					if x.Op != token.MUL {
+						return v
 					}
+
+					v = x.X
+				case *ssa.Field:
+					v = x.X
+				default:
+					return v
 				}
+			}
+
+			return v
+		}
+		note := func(v ssa.Value, what string, pos token.Pos) {
+			switch r := rootOf(v).(type) {
+			case *ssa.Alloc:
+				roots[r] = true
+			case *ssa.MakeMap:
+			default:
+				okRoots = false
+
+				c.Bad("R09.1", FuncName(run)+" :: "+what+" is local to Run", pos, "container is "+p.Desc(v)+", not created in the event loop")
 			}
 		}
 
-		c.Check(locals >= 2, "R09.1", FuncName(run)+" :: priority queue and on-hold set are locals of Run", fpos(run), fmt.Sprintf("%d", locals), "containers are not locals of the event loop")
+		for _, in := range Find(run, func(ssa.Instruction) bool { return true }) {
+			switch x := in.(type) {
+			case *ssa.Call:
+				n := p.CalleeName(x)
+				if Glob(pqT+".*", n) || Glob("(*"+pkgContainers+".SliceSet[*]).*", n) {
+					note(CallArgs(x)[0], "receiver of "+n, x.Pos())
+				}
+			case *ssa.Lookup:
+				if _, isMap := x.X.Type().Underlying().(*types.Map); isMap {
+					note(x.X, "parked-value map", x.Pos())
+				}
+			case *ssa.MapUpdate:
+				note(x.Map, "parked-value map", x.Pos())
+			}
+		}
+
+		for al := range roots {
+			var escapes func(v ssa.Value, d int)
+
+			escapes = func(v ssa.Value, d int) {
+				if d > 4 || v.Referrers() == nil {
+					return
+				}
+
+				for _, r := range *v.Referrers() {
+					switch x := r.(type) {
+					case *ssa.Store:
+						if x.Val == v {
+							c.Bad("R09.1", FuncName(run)+" :: container does not escape", r.Pos(), "the container's address is stored: it escapes the event loop")
+						}
+					case *ssa.Send, *ssa.MakeClosure, *ssa.Go, *ssa.Defer, *ssa.MakeInterface, *ssa.Return:
+						c.Bad("R09.1", FuncName(run)+" :: container does not escape", r.Pos(), "the container's address escapes the event loop")
+					case *ssa.FieldAddr:
+						if _, isStruct := x.Type().(*types.Pointer).Elem().Underlying().(*types.Struct); isStruct {
+							escapes(x, d+1)
+						}
+					case *ssa.Call:
+						n := p.CalleeName(x)
+						if !(Glob(pqT+".*", n) || Glob("(*"+pkgContainers+".SliceSet[*]).*", n) || Glob("(*time.Timer).*", n)) {
+							c.Bad("R09.1", FuncName(run)+" :: container does not escape", r.Pos(), "the container's address is passed to "+n)
+						}
+					}
+				}
+			}
+
+			escapes(al, 0)
+		}
+
+		c.Check(okRoots && len(roots) >= 1, "R09.1", FuncName(run)+" :: priority queue and on-hold set are locals of Run", fpos(run), fmt.Sprintf("%d", len(roots)), "containers are not locals of the event loop")
 	}
 
 	if run == nil {
@@ -143,9 +215,9 @@ func runC09(c *Ctx) {
 
 	putStarts := p.EdgeSuccs(run, armEdge("put"))
 	isPark := func(in ssa.Instruction) bool {
-		mu, ok := in.(*ssa.MapUpdate)
+		_, ok := in.(*ssa.MapUpdate)
 
-		return ok && strings.Contains(p.Desc(mu.Map), "makemap")
+		return ok // (Run has one map: the parked values, wherever it is kept)
 	}
 
 	c.NoReach("R09.3", "put: Push only when the key is not on hold", run, putStarts, 1, push, CutSpec{Edges: FactEdge("false(" + onHoldContains), Nodes: nextIter})
@@ -188,11 +260,11 @@ func runC09(c *Ctx) {
 	isUnpark := func(in ssa.Instruction) bool {
 		call, ok := in.(*ssa.Call)
 
-		return ok && p.CalleeName(call) == "builtin.delete" && strings.Contains(p.Desc(call.Call.Args[0]), "makemap")
+		return ok && p.CalleeName(call) == "builtin.delete"
 	}
 	var parkedInRelease []Loc
 
-	for _, loc := range p.EdgeSuccs(run, "true(lookup(makemap,*)#1)") {
+	for _, loc := range p.EdgeSuccs(run, "true(lookup(*,*)#1)") {
 		for _, rs := range relStarts {
 			if dominates(rs.B, loc.B) {
 				parkedInRelease = append(parkedInRelease, loc)
@@ -243,7 +315,7 @@ func runC09(c *Ctx) {
 	}
 
 	if f := p.Method(pkgQRuntime, "Adapter", "runReconcile"); c.NeedFunc("R09.5", f, "qruntime.runReconcile") {
-		body := ClosureWith(f, p.CallTo("(*"+pkgQRuntime+".Adapter).runOnce"))
+		body := p.BodyWith(f, p.CallTo("(*"+pkgQRuntime+".Adapter).runOnce"))
 		if c.NeedFunc("R09.5", body, "runReconcile per-item closure") {
 			c.MustCut("R09.5", "item.Requeue ⊣ {interval != 0}", body, p.PlainCallTo(itemT+".Requeue"), CutSpec{Edges: FactEdge("ne(phi(*,const:0)", "ne(*var:interval,const:0)", "ne(*,const:0)")}, 1)
 
@@ -253,8 +325,30 @@ func runC09(c *Ctx) {
 			gb := p.CallTo("(*" + pkgQRuntime + ".Adapter).getBackoffInterval")
 			cb := p.CallTo("(*" + pkgQRuntime + ".Adapter).clearBackoff")
 			c.MustCut("R09.6", "getBackoffInterval ⊣ {reconcile error}", body, gb, CutSpec{Edges: func(e EdgeInfo) bool { return strings.HasPrefix(e.Facts[0], "nonnil(") }}, 1)
-			c.MustCut("R09.6", "getBackoffInterval ⊣ {no interval from RequeueError}", body, gb, CutSpec{Edges: func(e EdgeInfo) bool { return strings.HasPrefix(e.Facts[0], "eq(") && strings.HasSuffix(e.Facts[0], ",const:0)") }}, 1)
-			c.Check(len(Find(body, cb)) == 2, "R09.6", FuncName(body)+" :: clearBackoff on the skipped and on the success arm", fpos(body), "2 sites", fmt.Sprintf("%d clearBackoff sites", len(Find(body, cb))))
+			c.MustCut("R09.6", "getBackoffInterval ⊣ {no interval from RequeueError}", body, gb, CutSpec{Edges: func(e EdgeInfo) bool {
+				return strings.HasPrefix(e.Facts[0], "eq(") && strings.HasSuffix(e.Facts[0], ",const:0)")
+			}}, 1)
+			// clearBackoff exactly for skipped / successful jobs, wherever the arms are written
+			skipped := "true(call:github.com/siderolabs/gen/xerrors.TagIs(*"
+			c.MustCut("R09.6", "clearBackoff ⊣ {skipped, no reconcile error}", body, cb, CutSpec{Edges: func(e EdgeInfo) bool {
+				for _, f := range e.Facts {
+					if Glob(skipped, f) || strings.HasPrefix(f, "nil(") && (strings.Contains(f, ".runOnce(") || strings.Contains(f, "RequeueError).Err(")) {
+						return true
+					}
+				}
+
+				return false
+			}}, 1)
+			c.MustCut("R09.6", "job ends ⊣ {backoff cleared, reconcile error}", body, IsReturn, CutSpec{Nodes: cb, Edges: func(e EdgeInfo) bool {
+				for _, f := range e.Facts {
+					if strings.HasPrefix(f, "nonnil(") && (strings.Contains(f, ".runOnce(") || strings.Contains(f, "RequeueError).Err(")) {
+						return true
+					}
+				}
+
+				return false
+			}}, 1)
+			c.NoReach("R09.6", "a skipped job never takes a backoff interval", body, p.EdgeSuccs(body, skipped), 1, gb, CutSpec{})
 		}
 	}
 
@@ -262,7 +356,7 @@ func runC09(c *Ctx) {
 	c.Rule("R09.7", "E1", "length: +1 behind Push()==true / first parking, −1 with Pop / re-push onto an existing entry", 4)
 
 	for _, in := range Find(run, lenAdd("1")) {
-		bad, w := p.Reach(Entry(run), func(i ssa.Instruction) bool { return i == in }, CutSpec{Edges: FactEdge("true(call:"+pqT+".Push(*", "false(lookup(makemap,*)#1)")})
+		bad, w := p.Reach(Entry(run), func(i ssa.Instruction) bool { return i == in }, CutSpec{Edges: FactEdge("true(call:"+pqT+".Push(*", "false(lookup(*,*)#1)")})
 		c.Check(!bad, "R09.7", FuncName(run)+" :: length +1 ⊣ {Push reported a new key, first parking of a key}", in.Pos(), "paired", "length incremented without a new entry: "+strings.Join(w, " "))
 	}
 
